@@ -22,25 +22,25 @@ import (
 // exported API, because directory search is part of the subject).
 
 type c06Case struct {
-	Base     string   `json:"base"`
-	Perm     []int    `json:"perm,omitempty"`     // order of the index file's packet groups (creator, main, desc0, ifsc0, desc1, ifsc1)
-	Dup      int      `json:"dup"`                // index of the index-file packet to duplicate (-1 none)
-	Exps     []int    `json:"exps"`               // recovery block numbers
-	NVol     int      `json:"nvol"`               // number of volume files
-	VolNames []string `json:"volnames,omitempty"` // middle parts of the volume names
-	Foreign  int      `json:"foreign"`            // position of a foreign-set packet in index and volumes (-1 none)
-	Unknown  int      `json:"unknown"`            // position of an unknown-type packet (-1 none)
-	UnkBody  int      `json:"unkbody,omitempty"`  // body of the unknown-type packet: 0 = 8 bytes, 1 = empty (packet length exactly 64), 2 = 1 KiB; 3 = empty body AND foreign set id
-	VolCore  int      `json:"volcore"`            // 0 full core packets, 1 creator only, 2 creator+main, 3 core packets after the recovery packets
-	Subdir   bool     `json:"subdir,omitempty"`   // protected files live in sub-directories
-	LongName int      `json:"longname,omitempty"` // protected file 1 lives N directories deep (40-byte components): the stored relative name exceeds 255 bytes for N>=7
-	RecvRev  bool     `json:"recvrev,omitempty"`  // recovery packets in descending order, duplicated
-	Big      int      `json:"big,omitempty"`      // 0: tiny files; 1, 2: files above 16 KiB (17000 and 16500 bytes, slice 500), generation Big-1 of the content beyond the first 16 KiB
-	PriorGen bool     `json:"priorgen,omitempty"` // history in the process: the OTHER generation of the same set (same names, lengths, first 16 KiB => same file ids and set id; other content) was verified first, in a directory of its own
-	Dec      *decProtoCase `json:"dec,omitempty"` // operation sequences (incl. loads that fail half-way) on one Decoder object over a foreign layout
-	Stray    int      `json:"stray,omitempty"`    // a file matching <base>.*.par2 that holds only another set's packets: 1 = listed first, 2 = between the volumes, 3 = last, 4 = first and last
-	Damage   string   `json:"damage"`             // none, del0, del1, ovw0, ovw1
-	G        int      `json:"g,omitempty"`
+	Base     string        `json:"base"`
+	Perm     []int         `json:"perm,omitempty"`     // order of the index file's packet groups (creator, main, desc0, ifsc0, desc1, ifsc1)
+	Dup      int           `json:"dup"`                // index of the index-file packet to duplicate (-1 none)
+	Exps     []int         `json:"exps"`               // recovery block numbers
+	NVol     int           `json:"nvol"`               // number of volume files
+	VolNames []string      `json:"volnames,omitempty"` // middle parts of the volume names
+	Foreign  int           `json:"foreign"`            // position of a foreign-set packet in index and volumes (-1 none)
+	Unknown  int           `json:"unknown"`            // position of an unknown-type packet (-1 none)
+	UnkBody  int           `json:"unkbody,omitempty"`  // body of the unknown-type packet: 0 = 8 bytes, 1 = empty (packet length exactly 64), 2 = 1 KiB; 3 = empty body AND foreign set id
+	VolCore  int           `json:"volcore"`            // 0 full core packets, 1 creator only, 2 creator+main, 3 core packets after the recovery packets
+	Subdir   bool          `json:"subdir,omitempty"`   // protected files live in sub-directories
+	LongName int           `json:"longname,omitempty"` // protected file 1 lives N directories deep (40-byte components): the stored relative name exceeds 255 bytes for N>=7
+	RecvRev  bool          `json:"recvrev,omitempty"`  // recovery packets in descending order, duplicated
+	Big      int           `json:"big,omitempty"`      // 0: tiny files; 1, 2: files above 16 KiB (17000 and 16500 bytes, slice 500), generation Big-1 of the content beyond the first 16 KiB
+	PriorGen bool          `json:"priorgen,omitempty"` // history in the process: the OTHER generation of the same set (same names, lengths, first 16 KiB => same file ids and set id; other content) was verified first, in a directory of its own
+	Dec      *decProtoCase `json:"dec,omitempty"`      // operation sequences (incl. loads that fail half-way) on one Decoder object over a foreign layout
+	Stray    int           `json:"stray,omitempty"`    // a file matching <base>.*.par2 that holds only another set's packets: 1 = listed first, 2 = between the volumes, 3 = last, 4 = first and last
+	Damage   string        `json:"damage"`             // none, del0, del1, ovw0, ovw1
+	G        int           `json:"g,omitempty"`
 }
 
 func c06Default() c06Case {
